@@ -65,8 +65,15 @@ def fromPathOp : Handler := fun j => do
   let ssa ← (← field j "ssa").getBool?
   pure (jFrom (if ssa then fromSsaPath n p else fromLinearPath n p))
 
+/-- op `c10.from_edge`: `from_path(edge_path=…)` of the model -/
+def fromEdgeOp : Handler := fun j => do
+  let ep ← natList (← field j "edge_path")
+  let inputs ← natListList (← field j "inputs")
+  pure (jFrom (fromEdgePath ep inputs))
+
 def handlers : List (String × Handler) :=
   [("c10.linear_to_ssa", linearToSsaOp), ("c10.ssa_to_linear", ssaToLinearOp),
-   ("c10.edge_to_ssa", edgeToSsaOp), ("c10.tree", treeOp), ("c10.from_path", fromPathOp)]
+   ("c10.edge_to_ssa", edgeToSsaOp), ("c10.tree", treeOp), ("c10.from_path", fromPathOp),
+   ("c10.from_edge", fromEdgeOp)]
 
 end Cotengra.Driver.C10
